@@ -1,2 +1,197 @@
+"""Stage T for C08: random histories on real channel-matrix objects (random K, antennas, complex channels,
+path-loss matrices) recorded as traces and validated by TLC (spec/chan/Trace_MuChannel.tla)."""
+import copy
+import json
+import os
+import re
+import tempfile
+
+import numpy as np
+
+from .. import tlc
+from ..core import pool_map
+
+MODULE = "chan/Trace_MuChannel.tla"
+
+
+def record(job):
+    seed, ext = job
+    from pyphysim.channels import multiuser
+    from scipy.linalg import block_diag
+    rs = np.random.RandomState(seed)
+    o = multiuser.MultiUserChannelMatrixExtInt() if ext else multiuser.MultiUserChannelMatrix()
+    o.set_channel_seed(seed + 1)
+    o.set_noise_seed(seed + 2)
+    K = rs.randint(2, 5)
+    E = rs.randint(1, 3) if ext else 0
+    ev = []
+    raws, pls, filts = [], [None], [None]      # histories; pls[p] = (main, ext) or None
+    nr = nt = nte = None
+
+    def amp_big(p):
+        if pls[p] is None:
+            return 1.0
+        main, extm = pls[p]
+        full = np.hstack([main, extm]) if ext else main
+        rows = np.repeat(np.arange(K), nr)
+        cols = np.repeat(np.arange(K + E), list(nt) + list(nte))
+        return np.sqrt(full[np.ix_(rows, cols)])
+
+    def identify(val, view):
+        """which (raw, pl) of the history the view equals; prefers the current one"""
+        cur = (len(raws), len(pls) - 1)
+        cands = [cur] + [(r, p) for r in range(len(raws), 0, -1) for p in range(len(pls) - 1, -1, -1) if (r, p) != cur]
+        for (r, p) in cands:
+            raw = raws[r - 1]
+            if raw.shape != (sum(nr), sum(nt) + sum(nte)):
+                continue
+            try:
+                big = raw * amp_big(p)
+            except Exception:
+                continue
+            if view(big).shape == np.asarray(val).shape and np.allclose(view(big), val, rtol=0, atol=1e-9):
+                return [r, p]
+        return [-1, -1]
+
+    def new_channel():
+        nonlocal nr, nt, nte
+        nr = list(rs.randint(1, 4, size=K))
+        nt = list(rs.randint(1, 4, size=K))
+        nte = list(rs.randint(1, 3, size=E))
+        if rs.rand() < 0.5:
+            o.randomize(np.array(nr), np.array(nt), K, np.array(nte)) if ext else o.randomize(np.array(nr), np.array(nt), K)
+            c = copy.deepcopy(o)
+            c.set_pathloss(None, None) if ext else c.set_pathloss(None)
+            raws.append(np.array(c.big_H))
+        else:
+            m = rs.randn(sum(nr), sum(nt) + sum(nte)) + 1j * rs.randn(sum(nr), sum(nt) + sum(nte))
+            if ext:
+                o.init_from_channel_matrix(m.copy(), np.array(nr), np.array(nt), K, np.array(nte))
+            else:
+                o.init_from_channel_matrix(m.copy(), np.array(nr), np.array(nt), K)
+            raws.append(m)
+        ev.append({"op": "NewChannel"})
+        # filters are built for the receive antennas: drop them when the channel changes
+        o.set_post_filter(None)
+        filts.append(None)
+        ev.append({"op": "SetFilter"})
+
+    new_channel()
+    for _ in range(rs.randint(6, 16)):
+        c = rs.randint(0, 10)
+        if c == 0:
+            new_channel()
+        elif c <= 2:
+            if rs.rand() < 0.25:
+                o.set_pathloss(None, None) if ext else o.set_pathloss(None)
+                pls.append(None)
+            else:
+                main = rs.uniform(0.05, 2.0, size=(K, K))
+                extm = rs.uniform(0.05, 2.0, size=(K, E))
+                o.set_pathloss(main, extm) if ext else o.set_pathloss(main)
+                pls.append((main, extm))
+            ev.append({"op": "SetPathloss"})
+        elif c == 3:
+            on = bool(rs.rand() < 0.6)
+            o.noise_var = rs.uniform(0.1, 1.0) if on else None
+            ev.append({"op": "SetNoise", "on": on})
+        elif c == 4:
+            if rs.rand() < 0.3:
+                o.set_post_filter(None)
+                filts.append(None)
+            else:
+                W = [rs.randn(n, n) + 1j * rs.randn(n, n) + 3 * np.eye(n) for n in nr]
+                o.set_post_filter(list(W))
+                filts.append(W)
+            ev.append({"op": "SetFilter"})
+        elif c <= 8:
+            cr = np.cumsum([0] + nr)
+            ct = np.cumsum([0] + nt + nte)
+            T = sum(nt)
+            k = rs.randint(0, K)
+            l = rs.randint(0, K + E)
+            views = [("big_H", lambda: o.big_H, lambda b: b),
+                     ("Hk", lambda: o.get_Hk(k), lambda b: b[cr[k]:cr[k + 1], :]),
+                     ("Hkl", lambda: o.get_Hkl(k, l), lambda b: b[cr[k]:cr[k + 1], ct[l]:ct[l + 1]]),
+                     ("Hdiag", lambda: o.H[k, min(l, K - 1)], lambda b: b[cr[k]:cr[k + 1], ct[min(l, K - 1)]:ct[min(l, K - 1) + 1]])]
+            if ext:
+                views += [("big_H_no_ext", lambda: o.big_H_no_ext_int, lambda b: b[:, :T]),
+                          ("Hk_no_ext", lambda: o.get_Hk_without_ext_int(k), lambda b: b[cr[k]:cr[k + 1], :T]),
+                          ("H_no_ext", lambda: o.H_no_ext_int[k, min(l, K - 1)], lambda b: b[cr[k]:cr[k + 1], ct[min(l, K - 1)]:ct[min(l, K - 1) + 1]])]
+            name, get, view = views[rs.randint(0, len(views))]
+            try:
+                val = get()
+                ev.append({"op": "Read", "view": name, "raised": False, "src": identify(val, view)})
+            except Exception as ex:
+                ev.append({"op": "Read", "view": name, "raised": True, "src": [-1, -1], "exc": f"{type(ex).__name__}: {ex}"})
+        else:
+            data = np.zeros(K, dtype=object)
+            for k2 in range(K):
+                data[k2] = rs.randn(nt[k2], 2) + 1j * rs.randn(nt[k2], 2)
+            ed = np.zeros(E, dtype=object)
+            for k2 in range(E):
+                ed[k2] = rs.randn(nte[k2], 2) + 1j * rs.randn(nte[k2], 2)
+            try:
+                out = o.corrupt_data(data, ed) if ext else o.corrupt_data(data)
+                x = np.vstack(list(data) + list(ed))
+                ln = o.last_noise
+                y_obs = np.vstack(list(out))
+                # which filter was applied, which matrix produced the data?
+                found_f, found_src = -1, [-1, -1]
+                for fv in range(len(filts) - 1, -1, -1):
+                    W = filts[fv]
+                    if W is not None and [w.shape[0] for w in W] != nr:
+                        continue
+
+                    def view(b, W=W):
+                        y = b.dot(x) + (ln if ln is not None else 0)
+                        return block_diag(*W).conj().T.dot(y) if W is not None else y
+                    src = identify(y_obs, view)
+                    if src != [-1, -1]:
+                        found_f, found_src = fv, src
+                        break
+                split_ok = [np.asarray(out[k2]).shape[0] for k2 in range(K)] == nr
+                ev.append({"op": "Corrupt", "raised": False, "src": found_src if split_ok else [-1, -1], "noise": ln is not None, "filt": found_f})
+            except Exception as ex:
+                ev.append({"op": "Corrupt", "raised": True, "src": [-1, -1], "noise": False, "filt": -1, "exc": f"{type(ex).__name__}: {ex}"})
+    return ev
+
+
 def run(ctx):
-    pass
+    n = 300 if ctx.tier == "quick" else 4000
+    jobs = [(ctx.seed * 65537 + k, k % 2 == 1) for k in range(n)]
+    traces = pool_map(record, jobs, chunksize=max(1, n // 64))
+    os.makedirs(tlc.WORK, exist_ok=True)
+    fd, path = tempfile.mkstemp(prefix="c08-traces-", suffix=".json", dir=tlc.WORK)
+    try:
+        with os.fdopen(fd, "w") as f:
+            json.dump(traces, f)
+        r = tlc.run(MODULE, tlc.cfg_text(invariants=["Conforms"]), env={"TRACE_FILE": path}, workers=4, timeout=1800)
+        ctx.account(r, MODULE, "random-histories")
+        if r.violated:
+            m = re.search(r"mismatch = <<(\d+), (\d+), \"([^\"]*)\">>", r.trace_text)
+            if m:
+                t, i = int(m.group(1)) - 1, int(m.group(2)) - 1
+                ctx.violation(f"recorded history {jobs[t]} rejected by Trace_MuChannel at event {i}: {m.group(3)} ({traces[t][i]})",
+                              {"kind": "trace", "job": list(jobs[t]), "event": i, "trace": traces[t]})
+            else:
+                ctx.violation("recorded histories rejected by Trace_MuChannel", {"kind": "trace", "text": r.trace_text[:2000]})
+        ctx.trace_done(len(traces))
+        ctx.sample({"recorded_history": traces[0][:8]})
+        # negative control: a corrupted source version must be rejected
+        bad = json.loads(json.dumps(traces[0]))
+        for e in bad:
+            if e["op"] in ("Read", "Corrupt") and not e["raised"]:
+                e["src"] = [e["src"][0], e["src"][1] - 1]
+                break
+        else:
+            bad = None
+        if bad:
+            with open(path, "w") as f:
+                json.dump([bad], f)
+            r2 = tlc.run(MODULE, tlc.cfg_text(invariants=["Conforms"]), env={"TRACE_FILE": path}, timeout=600)
+            if not r2.violated:
+                raise tlc.TlcError("Trace_MuChannel accepted a corrupted trace (binding is not live)")
+            ctx.notes["trace_negative_control"] = "stale source version rejected"
+    finally:
+        os.remove(path)
